@@ -922,6 +922,10 @@ REGRESS = {
     "augassign-sequence-or-starred-target": ["(+= [a] 1)", "(@= #(y) k)", "(>>= #* a b)", "(-= [a b] 1 2)"],
     "fcomponent-value-without-expression": ['f"{%STMT%}"', 'f"a{%STMT% !r :>4}b"'],
     "assert-falsy-message-model": ["(assert x %FALSY%)"],
+    "loop-body-of-only-an-elided-nonlocal": ["(defn f [] (let [a 1] (let [b 2] (while c (nonlocal a)))))",
+                                             "(defn f [] (let [a 1] (let [b 2] (for [x xs] (nonlocal a)))))",
+                                             "(defn f [] (let [a 1] (let [b 2] (for [x xs] 1 (else (nonlocal a))))))",
+                                             "(defn f [] (let [a 1] (let [b 2] (with [o] (nonlocal a b)))))"],
     "module-level-nonlocal-of-defined-name": ["(do (setv a 1) (nonlocal a))", "(do (setv a 1 b 2) (nonlocal b a))"],
     "deftype-constant-name": ["(deftype %CONST% x)"],
     "type-parameter-constant-name": ["(fn :tp [%CONST%] [a] a)", "(deftype :tp [#* %CONST%] T x)",
